@@ -122,3 +122,60 @@ Theorem C01_rendered_path_is_issuer_path :
   render show_nat a = join_tokens (toks ++ [key]).
 Proof. exact render_tokens. Qed.
 Print Assumptions C01_rendered_path_is_issuer_path.
+
+(* ---- the same at the level of the path STRINGS ("equal to the path the issuer was given") ----
+   The issuer is given the JSON pointers (RFC 6901: member names with '~' and '/' escaped, indices in decimal) of
+   existing nodes of the claims (node_addr: non-empty address, present in the claims, indices representable as
+   usize), descendants before ancestors and without repeats (ordered). Then these strings parse (split_paths),
+   marking succeeds, and under the premises of C01_encode_then_holder_verify: encode succeeds, Holder::verify
+   returns the header and exactly the original claims (+cnf), and the i-th disclosure is reported under exactly
+   the i-th string the issuer was given. Pieces: PathStr.unescape_esc / split_render / parse_path_render (the
+   pointer codec), DecStr.parse_usize_show / parse_index_show (decimal codec), PathStr.jresolve_render. *)
+Require Import SDJ.DecStr SDJ.PathStr SDJ.PathThm.
+Theorem C01_encode_json_pointers :
+  forall (E : issue_env) (O : oracles),
+  (forall x y, ie_hash E x = ie_hash E y -> x = y) ->
+  (forall ps, o_dec O (ie_enc E ps) = DJson (JArr ps)) ->
+  o_hash O SHA256 = ie_hash E ->
+  (forall h p j, ie_sign E h p = Val j -> o_jwt O j = Val (h, p)) ->
+  (forall h p, exists j, ie_sign E h p = Val j /\ Split.contains Split.tilde j = false) ->
+  (forall ps, Split.contains Split.tilde (ie_enc E ps) = false) ->
+  (forall xs, Permutation.Permutation (ie_perm E xs) xs) ->
+  forall (ckvs : list (string * json)) (addrs : list addr) (max_decoys : option Z) (cnf : option json) (header : json),
+  jwf (JObj ckvs) -> ~ In "_sd_alg" (map fst ckvs) -> ~ In "cnf" (map fst ckvs) ->
+  NoDup (ie_salts E) -> addrs <> [] -> Forall (node_addr (JObj ckvs)) addrs -> ordered addrs ->
+  List.length addrs <= List.length (ie_salts E) ->
+  exists t',
+    (exists tks, split_paths (map (T1s.render Wire.show_nat) addrs) = Some tks /\
+       T1j.mark_fold (ie_hash E) (ie_enc E) Issuer2.parse_index Issuer2.parse_usize (ie_pos E) (embed (JObj ckvs)) tks (ie_salts E) = Some t') /\
+    (NoDup (decoys_used E max_decoys) ->
+     (forall g, In g (decoys_used E max_decoys) -> ~ In g (alldigs (ie_hash E) (ie_enc E) t')) ->
+     (match cnf with Some c => jwf c /\ S (aheight (embed c)) <= 129 | None => True end) ->
+     aheight t' <= 129 ->
+     exists token payload ds ps,
+       issue E (JObj ckvs) (map (T1s.render Wire.show_nat) addrs) max_decoys cnf header = Val (token, payload, ds) /\
+       holder_verify O token = Val (header, match cnf with Some c => JObj (obj_insert "cnf" c ckvs) | None => JObj ckvs end, ps) /\
+       Permutation.Permutation (map snd ps) ds /\
+       Forall2 (fun d p => In (p, d) ps) ds (map (T1s.render Wire.show_nat) addrs)).
+Proof. exact encode_json_pointers. Qed.
+Print Assumptions C01_encode_json_pointers.
+
+(* the pointer codec by itself: the issuer's parse of a rendered address gives back the (unescaped) tokens, and
+   they resolve to that node *)
+Theorem C01_pointer_codec :
+  forall (a : addr) (t : step) (C : json),
+    jwf C -> jat (a ++ [t])%list C -> small (a ++ [t])%list ->
+    exists toks key, parse_path (T1s.render Wire.show_nat (a ++ [t])%list) = Some (toks, key) /\
+                     jresolve Issuer2.parse_index Issuer2.parse_usize toks key C = Some (a ++ [t])%list.
+Proof. exact render_resolves. Qed.
+Print Assumptions C01_pointer_codec.
+
+(* the premises are satisfiable: "/a~1b/0" addresses element 0 of the member "a/b" *)
+Example C01_pointer_codec_nonvacuous :
+  let C := JObj [("a/b", JArr [JStr "x"; JStr "y"])] in
+  jwf C /\ node_addr C [SKey "a/b"; SIdx 0] /\ T1s.render Wire.show_nat [SKey "a/b"; SIdx 0] = "/a~1b/0".
+Proof.
+  cbv zeta. split; [|split; [|reflexivity]].
+  - constructor; [repeat constructor|]. repeat constructor; cbn; try discriminate.
+  - split; [discriminate|]. split; [cbn; exact I|]. repeat constructor. cbn. vm_compute. discriminate.
+Qed.
